@@ -329,13 +329,22 @@ theorem pickLatest_mem (v : Nat) : ∀ (rows : List Spec) (acc : Option Spec) (s
 theorem byName_mem {env : Env} {v : Nat} {n : String} {s : Spec} (h : byName env v n = some s) :
     ∃ r ∈ env.rows, r.name = n ∧ s = (if v = 0 then { r with version := 0 } else r) := by
   unfold byName at h
-  simp only [Option.map_eq_some_iff] at h
-  obtain ⟨r, hr, rfl⟩ := h
-  unfold pickLatest at hr
-  rcases pickLatest_mem v _ none r hr with h1 | h1
-  · have := List.mem_filter.mp h1
-    exact ⟨r, this.1, by simpa using this.2, rfl⟩
-  · cases h1
+  cases hf : env.rows.find? (fun r => r.name = n) with
+  | none => simp [hf] at h
+  | some r0 =>
+    simp only [hf] at h
+    cases hp : pickLatest v (env.rows.filter (fun r => sameKey r0 r)) with
+    | none => simp [hp] at h
+    | some r =>
+      simp only [hp] at h
+      split at h
+      · rename_i hn
+        simp only [Option.some.injEq] at h
+        unfold pickLatest at hp
+        rcases pickLatest_mem v _ none r hp with h1 | h1
+        · exact ⟨r, (List.mem_filter.mp h1).1, hn, h.symm⟩
+        · cases h1
+      · cases h
 
 theorem byName_name {env : Env} {v : Nat} {n : String} {s : Spec} (h : byName env v n = some s) : s.name = n := by
   obtain ⟨r, _, hn, rfl⟩ := byName_mem h
